@@ -450,7 +450,8 @@ func (dsc *dataStoreCommand) addInt(keyName string, delta int64) (value int64, e
 
 		var err error
 		value, err = strconv.ParseInt(string(strBytes), 10, 64)
-		if err != nil {
+		if err != nil || strconv.FormatInt(value, 10) != string(strBytes) {
+			// not the canonical text of a 64-bit integer ("+1", "01", "-0"...)
 			exists = VALUE_WRONG_FORMAT
 			return
 		}
